@@ -229,6 +229,7 @@ func (fv *FuncVerifier) evalCall(st *State, env *Env, call *ast.CallExpr) []Term
 	// unknown function value: arbitrary effects and results
 	if !env.spec {
 		fv.nondet = append(fv.nondet, "call of unknown function value "+exprString(fun))
+		fv.orderLeak("the function value "+exprString(fun)+" is called", call.Pos())
 		fv.note("call of unknown function value %s at %s: heap havocked", exprString(fun), fv.pos(call.Pos()))
 		if fv.fn.Contr != nil && fv.fn.Contr.Has("fnvalue-calllog", 0) {
 			pfx, exc := preservesOf(fv.fn.Contr)
@@ -838,7 +839,15 @@ func (fv *FuncVerifier) isYieldParam(v *types.Var) bool {
 	return fv.yieldVar != nil && (v == fv.yieldVar || fv.yieldAliases[v])
 }
 
+// orderLeak records that something whose EFFECTS may matter happens inside a loop that runs in map order (`ordered`).
+func (fv *FuncVerifier) orderLeak(what string, pos token.Pos) {
+	if fv.mapRangeDepth > 0 && fv.dryRun == 0 {
+		fv.orderLeaks = append(fv.orderLeaks, what+" inside a range over a map at "+fv.pos(pos))
+	}
+}
+
 func (fv *FuncVerifier) callYield(st *State, env *Env, call *ast.CallExpr) []Term {
+	fv.orderLeak("a value is yielded", call.Pos())
 	w := fv.w
 	stopped := st.ghost["stopped"]
 	fv.oblige(st, env, "S", "yield-after-stop", Not(stopped), call.Lparen, "yield is not called again after it returned false")
@@ -1909,6 +1918,19 @@ func (fv *FuncVerifier) callUnknown(st *State, env *Env, call *ast.CallExpr, fn 
 		pkgPath = fn.Pkg().Path()
 	}
 	policy := externPolicy(pkgPath, full)
+	if fv.mapRangeDepth > 0 && !strings.HasPrefix(pkgPath, repoModule) {
+		// a function value (an iterator, a callback) that is not a literal handed to code outside /repo may be run there
+		for _, a := range call.Args {
+			if _, isLit := ast.Unparen(a).(*ast.FuncLit); isLit {
+				continue
+			}
+			if at := env.info.TypeOf(a); at != nil {
+				if _, isSig := at.Underlying().(*types.Signature); isSig {
+					fv.orderLeak("the function value "+exprString(a)+" is handed to "+full, call.Pos())
+				}
+			}
+		}
+	}
 	// interface methods declared in /repo may carry a contract (pure / assigns / ensures on result)
 	if hasRecv && strings.HasPrefix(pkgPath, repoModule) {
 		if ic := fv.prog.IfaceContracts[ifaceKey(fn)]; ic != nil {
@@ -1922,6 +1944,7 @@ func (fv *FuncVerifier) callUnknown(st *State, env *Env, call *ast.CallExpr, fn 
 				kind := 0
 				fmt.Sscanf(cls[0].Text, "%d", &kind)
 				fv.nondet = append(fv.nondet, "user code "+ic.Key)
+				fv.orderLeak("user code "+ic.Key+" is called", call.Pos())
 				pfx, exc := preservesOf(ic)
 				fv.havocAllExcept(st, pfx, exc)
 				fv.forkPanic(st, env, "user code "+ic.Key+" panics", call.Lparen)
